@@ -3,6 +3,7 @@ import itertools
 import json
 import os
 import random
+import re
 
 import verif_boot  # noqa: F401
 import numpy as np
@@ -47,6 +48,69 @@ def deep_against(ctx, rec, naive, po, stats, V):
                          'strict': strict, 'routine': name, 'expected': exp.tolist(), 'observed': got.tolist(), 'palette': 'finite'})
 
 
+PLV = re.compile(r'<<"PLV", (\d+), "(\w+)">>')
+
+
+def large_sets(ctx, d, rng):
+  """Point sets of the size at which the accelerated routines really shard / recurse (n up to 250), judged by TLC."""
+  import numpy as np
+  from vizier._src.jax import xla_pareto
+  from vizier._src.pyvizier.multimetric import pareto_optimal as po
+  naive = po.NaiveParetoOptimalAlgorithm()
+  jaxalg = xla_pareto.JaxParetoOptimalAlgorithm()
+  routines = {
+      'xla_pareto.is_frontier': lambda P: np.asarray(xla_pareto.is_frontier(P)),
+      'xla_pareto.is_frontier(num_shards=4)': lambda P: np.asarray(xla_pareto.is_frontier(P, num_shards=4)),
+      'Jax.is_pareto_optimal': lambda P: np.asarray(jaxalg.is_pareto_optimal(P)),
+      'Fast(Jax).is_pareto_optimal': lambda P: np.asarray(po.FastParetoOptimalAlgorithm(jaxalg, recursive_threshold=16).is_pareto_optimal(P)),
+      'Fast(Naive).is_pareto_optimal': lambda P: np.asarray(po.FastParetoOptimalAlgorithm(naive, recursive_threshold=16).is_pareto_optimal(P)),
+      'Naive.is_pareto_optimal': lambda P: np.asarray(naive.is_pareto_optimal(P)),
+  }
+  sizes = [17, 64, 100, 101, 250] if not ctx.thorough else [17, 33, 64, 100, 101, 127, 250, 500]
+  obs, meta = [], []
+  for n in sizes:
+    for D in (2, 3):
+      shapes = {
+          'grid_with_ties': [[rng.randrange(0, 8) for _ in range(D)] for _ in range(n)],
+          # everything is dominated by the newest point only
+          'late_sole_dominator': [[rng.randrange(0, 8) for _ in range(D)] for _ in range(n - 1)] + [[9] * D],
+          # an anti-chain followed by its dominators in the last rows
+          'dominators_last': [[i % 8, 7 - i % 8] + [0] * (D - 2) for i in range(n - 3)] + [[8, 8] + [1] * (D - 2)] * 3,
+          'ascending_chain': [[i] * D for i in range(n)],
+      }
+      for shape, pts in shapes.items():
+        P = np.asarray(pts, dtype=np.float64)
+        for rname, fn in routines.items():
+          if rname.startswith('Fast') and n > 101 and not ctx.thorough:
+            continue
+          try:
+            got = [bool(x) for x in fn(P)]
+          except Exception as e:  # pylint: disable=broad-except
+            got = [False] * n
+            meta.append((rname, shape, n, D, 'raised %s' % type(e).__name__))
+            obs.append({'pts': pts, 'got': got})
+            continue
+          obs.append({'pts': pts, 'got': got})
+          meta.append((rname, shape, n, D, None))
+  path = os.path.join(d, 'large.json')
+  with open(path, 'w') as f:
+    json.dump(obs, f)
+  cfg = os.path.join(d, 'P_large.cfg')
+  tlc.write_cfg(cfg, spec='JSpec', constants={'D': 2, 'V': 2, 'MaxN': 1})
+  res = tlc.must_ok(tlc.run_tlc('Pareto', cfg, d, workers=1, env={'TRACE_FILE': path}, timeout=3000), 'Pareto/large')
+  v = {int(m.group(1)): m.group(2) for m in PLV.finditer(res.out)}
+  if len(v) != len(obs):
+    raise tlc.MachineryError('Pareto large-set judge incomplete: %d of %d\n%s' % (len(v), len(obs), res.out[-1000:]))
+  bad = 0
+  for k, (rname, shape, n, D, err) in enumerate(meta):
+    if v[k + 1] != 'ok':
+      bad += 1
+      ctx.violation({'via': 'pareto', 'routine': rname, 'config': 'large:' + shape}, {'kind': 'pareto-large', 'routine': rname, 'shape': shape, 'n': n, 'D': D, 'error': err,
+                                                                                     'points': obs[k]['pts'][:12] + (['...'] if n > 12 else [])})
+  ctx.log('  large point sets: %d (routine, shape, n, D) answers judged by TLC, %d wrong' % (len(obs), bad))
+  return {'answers_judged': len(obs), 'sizes': sizes, 'wrong': bad}
+
+
 def run(ctx, only=None):
   from vizier._src.pyvizier.multimetric import pareto_optimal as po
   from vizier._src.algorithms.evolution import nsga2
@@ -62,6 +126,8 @@ def run(ctx, only=None):
   stats = {'multisets': 0, 'ordered_point_sets': 0, 'routine_calls': 0, 'jax_calls': 0}
   tlc_states = 0
   with tlc.Scratch('pareto') as d:
+    if not only:
+      ctx.coverage['pareto_large_sets'] = large_sets(ctx, d, rng)
     for (D, V, N) in spaces:
       cfg = os.path.join(d, 'P_%d_%d_%d.cfg' % (D, V, N))
       tlc.write_cfg(cfg, constants={'D': D, 'V': V, 'MaxN': N}, constraints=['Dump'],
